@@ -273,7 +273,16 @@ impl Future for ScriptFut {
     }
 }
 
-pub struct ScriptStream;
+/// `exact` is raised by a "lastitem" result: from then on size_hint() is exactly (0, Some(0)),
+/// as for a stream that knows it has nothing left but has not yet been polled for its `None`
+pub struct ScriptStream {
+    exact: Cell<bool>,
+}
+impl ScriptStream {
+    pub fn new() -> Self {
+        ScriptStream { exact: Cell::new(false) }
+    }
+}
 impl futures_core::Stream for ScriptStream {
     type Item = ();
     fn poll_next(self: Pin<&mut Self>, _cx: &mut Context<'_>) -> Poll<Option<()>> {
@@ -281,8 +290,15 @@ impl futures_core::Stream for ScriptStream {
         match res_of(&t) {
             "pending" => Poll::Pending,
             "item" => Poll::Ready(Some(())),
+            "lastitem" => {
+                self.exact.set(true);
+                Poll::Ready(Some(()))
+            }
             _ => Poll::Ready(None),
         }
+    }
+    fn size_hint(&self) -> (usize, Option<usize>) {
+        if self.exact.get() { (0, Some(0)) } else { (0, None) }
     }
 }
 
@@ -731,7 +747,7 @@ impl WCtx {
             "adnew" => {
                 let s = self.take_span(&t[2]);
                 let ad = match t[3].as_str() {
-                    "stream" => Adapter::Stream(Box::pin(fastrace_futures::StreamExt::in_span(ScriptStream, s))),
+                    "stream" => Adapter::Stream(Box::pin(fastrace_futures::StreamExt::in_span(ScriptStream::new(), s))),
                     "sink" => Adapter::Sink(Box::pin(fastrace_futures::SinkExt::<()>::in_span(ScriptSink, s))),
                     _ => Adapter::Fut(Box::pin(fastrace::future::FutureExt::in_span(ScriptFut, s))),
                 };
